@@ -12,11 +12,12 @@ from .tla import tla, tla_set
 
 FIXED = set(filter(None, os.environ.get("VERIF_FIXED_DOMAINS", "F4").split(",")))
 GENS = ("nearsq", "rect", "birect", "zoned")
-INVS = ["InsideLand", "SpacingAtLeastBmin", "NearSquareShape", "CountsNonDecreasing", "CountsStrictlyIncreasing", "NonEmpty"]
+INVS = ["InsideLand", "SpacingAtLeastBmin", "NearSquareShape", "CountsNonDecreasing", "CountsStrictlyIncreasing", "NonEmpty", "NoCandidateWithoutCount", "BiRectListsStartWithSingle"]
 
 
-def admissible(lx, ly, bmin, bmx, bmy, gen):
-    """Lots that admit >= 3 rows at the maximum spacing in each direction and at least one row count."""
+def admissible(lx, ly, bmin, bmx, bmy, gen, need_count=True):
+    """Lots that admit >= 3 rows at the maximum spacing in each direction and (need_count) at least one whole row count between the
+    spacing limits. need_count=False also admits windows such as 87 m with b_min = b_max = 5 m, for which the generators return no candidate."""
     if gen == "nearsq":
         return lx >= bmin
     l1, l2 = max(lx, ly), min(lx, ly)
@@ -27,7 +28,7 @@ def admissible(lx, ly, bmin, bmx, bmy, gen):
         b1, b2 = (bmy, bmx) if tr else (bmx, bmy)
     for l, b in ((l1, b1), (l2, b2)):
         lo, hi = -(-l // b), l // bmin
-        if lo > hi or lo + 1 < 3:
+        if (need_count and lo > hi) or lo + 1 < 3:
             return False
     return True
 
@@ -44,7 +45,7 @@ def lots_for(gen, t):
                             continue
                         if gen == "rect" and bmy != bmin:
                             continue
-                        if admissible(lx, ly, bmin, bmx, bmy, gen):
+                        if admissible(lx, ly, bmin, bmx, bmy, gen, need_count=False):
                             lots.append({"lx": lx, "ly": ly, "bmin": bmin, "bmx": bmx, "bmy": bmy})
     return lots
 
@@ -188,6 +189,10 @@ def _replay(item):
     try:
         lists = call_generator(gen, lx, ly, bmin, bmx, bmy)
     except Exception as ex:  # noqa: BLE001
+        if not admissible(lot["lx"], lot["ly"], lot["bmin"], lot["bmx"], lot["bmy"], gen, need_count=True) and all(len(l) == 0 for l in item["lists"]):
+            # no whole row count between the spacing limits: the model has no candidate, the code raises instead of returning empty lists.
+            # No candidate either way (C03 vacuous); the exception type is C02's business.
+            return {"mismatch": [], "bad": {}, "no_count_raise": type(ex).__name__}
         return {"error": f"{type(ex).__name__}: {ex}", "mismatch": [f"generator raised {type(ex).__name__}: {ex}"], "bad": {}}
     bad = predicates(gen, lists, lx, ly, bmin)
     mm = []
@@ -218,8 +223,8 @@ def _random_lots(seed):
     for _ in range(40):
         gen = rnd.choice(GENS)
         bmin = rnd.choice([3.0, 4.5, 5.0, 0.1 * rnd.randint(25, 80)])
-        bmx = bmin * rnd.choice([1.0, 1.5, 2.0, 2.7, 3.0])
-        bmy = bmin * rnd.choice([1.0, 1.3, 2.0, 3.0])
+        bmx = bmin * rnd.choice([1.0, 1.01, 1.5, 2.0, 2.7, 3.0])
+        bmy = bmin * rnd.choice([1.0, 1.01, 1.3, 2.0, 3.0])
         big = rnd.random() < 0.15
         lx = round(rnd.uniform(3 * bmx, (60 if big else 14) * bmx), rnd.choice([0, 1, 2]))
         ly = round(rnd.uniform(3 * bmy, (60 if big else 14) * bmy), rnd.choice([0, 1, 2]))
@@ -232,7 +237,7 @@ def _random_lots(seed):
             ok = lx >= bmin
         else:
             F = Fraction
-            ok = admissible(F(str(lx)), F(str(ly)), F(str(bmin)), F(str(bmx)), F(str(bmy)), gen)
+            ok = admissible(F(str(lx)), F(str(ly)), F(str(bmin)), F(str(bmx)), F(str(bmy)), gen, need_count=False)
         if not ok:
             continue
         if gen in ("birect", "zoned") and (lx / bmin) * (ly / bmin) > 2500:
@@ -240,7 +245,11 @@ def _random_lots(seed):
         try:
             lists = call_generator(gen, lx, ly, bmin, bmx, bmy)
         except Exception as ex:  # noqa: BLE001
-            if float_boundary(gen, lx, ly, bmin, bmx, bmy):
+            F = Fraction
+            if not admissible(F(str(lx)), F(str(ly)), F(str(bmin)), F(str(bmx)), F(str(bmy)), gen, need_count=True):
+                # no whole row count fits between the spacing limits: there is no candidate field, C03 is vacuous (how the run must end is C02's business)
+                out.append({"gen": gen, "lot": (lx, ly, bmin, bmx, bmy), "bad": {}, "no_count_raise": f"{type(ex).__name__}"})
+            elif float_boundary(gen, lx, ly, bmin, bmx, bmy):
                 # side / spacing is an exact integer and the float quotient lands on the other side: the lot is admissible in exact arithmetic
                 # only; either rounding is legal, including "no admissible row count"
                 out.append({"gen": gen, "lot": (lx, ly, bmin, bmx, bmy), "bad": {}, "float_boundary_raise": True})
@@ -305,6 +314,10 @@ def run() -> int:
     for it, r in zip(items, results):
         chk.nontrivial.add((it["gen"], tuple(sorted(it["lot"].items())), it["unit"]))
         fbn += 1 if r.get("float_boundary") else 0
+        if r.get("no_count_raise"):
+            chk.count("lots_without_row_count_generator_raises")
+        if not any(len(l) for l in it["lists"]):
+            chk.count("lots_without_row_count")
         if r["bad"]:
             u = float(Fraction(it["unit"]))
             lot = tuple(it["lot"][k] * u for k in ("lx", "ly", "bmin", "bmx", "bmy"))
